@@ -156,7 +156,7 @@ pub fn transcript(h: &CHist, print_live: bool, at_op: &mut dyn FnMut(usize)) -> 
                     #[cfg(feature = "explanations")]
                     {
                         if eg.eq(&ids[*a], &ids[*b]) {
-                            let (ta, tb) = (eg.get_syn_expr(&eg.find_applied_id(&ids[*a])), eg.get_syn_expr(&eg.find_applied_id(&ids[*a])));
+                            let (ta, tb): (RecExpr<LPay>, RecExpr<LPay>) = (RecExpr::parse(&texts[*a]).unwrap(), RecExpr::parse(&texts[*b]).unwrap());
                             let p = eg.explain_equivalence(ta, tb);
                             emit(format!("explain #{a} #{b} -> {}", p.to_string(&eg)), &mut out);
                         }
@@ -214,8 +214,13 @@ pub fn run_case(rng: &mut Rng, case_seed: u64, processes: usize, argv_extra: &[S
     let base = std::thread::Builder::new().stack_size(64 << 20).spawn(move || transcript(&h0, false, &mut |_| {})).unwrap().join().unwrap();
     let base = match base {
         Ok(b) => b,
-        Err(_) => {
-            out.inconclusive = Some("history panicked (reported by C08)".into());
+        Err(p) => {
+            if std::env::var("VERIF_TRACE").is_ok() {
+                eprintln!("C20 base panic: {} | ops {:?}", p.site(), h.ops);
+            }
+            // no other check runs this workload (payload language with rewriting, matching, extraction, explanation):
+            // a panic here is reported, not hidden
+            out.fail(Fail::panic("panic-in-history", &p, "the history panicked in its baseline run", cj.clone()));
             return out;
         }
     };
